@@ -122,10 +122,12 @@ theorem add_input_never_nests (outp len : Nat) (h : outp + addEndSlack + 1 ≤ d
     · simp only [h1, h2, if_false] at ho
       simp at ho
 
-example : addInput 4000 100 none = .inplace 3900 := by decide
-example : addInput 50 100 (some (true, 30)) = .fresh (defmax - 2 - 131) (defmax - 2) := by decide
+-- (stated relative to the regenerated constants: a harmless change of DEFMAX or of a slack keeps them true)
+example : addInput (defmax / 2) 100 none = .inplace (defmax / 2 - 100) := by decide
+example : addInput 50 100 (some (true, 30)) = .fresh (defmax - addEndSlack - 131) (defmax - addEndSlack) := by decide
 example : addInput 50 100 (some (false, 30)) = .overflow true := by decide
-example : addInput 9000 9995 none = .tooLong := by decide
+example : addInput 50 100 (some (true, defmax - addLineSlack - 100)) = .overflow true := by decide
+example : addInput 0 (defmax - addMaxSlack) none = .tooLong := by decide
 
 /-! ## expand_define -/
 
